@@ -468,6 +468,142 @@ def run_case(case, res, count=True):
     return n
 
 
+def _GNP():
+    from pylatexenc.latexnodes.parsers import LatexGeneralNodesParser
+    return LatexGeneralNodesParser()
+
+
+ALPHA_ARG = ['a', ',', '=', '{', '}', '[', ']', ' ', '\\x', '%c\n', 'b']
+_ARGDB = []
+
+
+def arg_db():
+    if not _ARGDB:
+        from pylatexenc.macrospec import LatexContextDb, MacroSpec
+        from pylatexenc.latexnodes import LatexArgumentSpec
+        db = LatexContextDb()
+        db.add_context_category('c18', macros=[
+            MacroSpec('zzm', arguments_spec_list=[LatexArgumentSpec('{', argname='val')]),
+            MacroSpec('zzo', arguments_spec_list=[LatexArgumentSpec('[', argname='opt'),
+                                                  LatexArgumentSpec('{', argname='val')])])
+        db.set_unknown_macro_spec(MacroSpec(''))
+        _ARGDB.append(db)
+    return _ARGDB[0]
+
+
+def _kv_plain(d):
+    """comparable form of a parse_keyval_content() result"""
+    out = []
+    for k, v in d.items():
+        if isinstance(v, (list, tuple)):
+            vv = [x if isinstance(x, (bool, str, type(None))) else x.latex_verbatim() for x in v]
+        elif isinstance(v, (bool, str, type(None))):
+            vv = v
+        else:
+            vv = v.latex_verbatim()
+        out.append((k, vv))
+    return out
+
+
+def check_argument_views(tokens, res):
+    """ParsedArgumentsInfo / SingleParsedArgumentInfo: get_content_nodelist() returns the contents
+    of the argument's group -- the contents of a single inner group instead only when that group
+    has *different* delimiters (the documented [{[}] idiom) -- and parse_content_as_keyval() is
+    parse_keyval_content() of that list"""
+    from pylatexenc.latexnodes import ParsedArgumentsInfo
+    from pylatexenc.latexwalker import LatexWalker
+    content = ''.join(tokens)
+    for doc, argname, idx, opener in (('\\zzm{%s}' % content, 'val', 0, '{'),
+                                      ('\\zzo[%s]{v}' % content, 'opt', 0, '['),
+                                      ('\\zzo{%s}' % content, 'val', 1, '{')):
+        case = {'what': 'argview', 'tokens': tokens, 'doc': doc}
+        try:
+            w = LatexWalker(doc, latex_context=arg_db(), tolerant_parsing=False)
+            nl, _ = w.parse_content(_GNP())
+        except Exception:
+            res.label('input-does-not-parse')
+            continue
+        node = nl[0]
+        if len(nl) != 1 or node.pos_end != len(doc) or node.nodeargd is None:
+            res.label('argview:content-ends-the-argument-early')
+            continue
+        res.case()
+        try:
+            info = ParsedArgumentsInfo(node=node)
+            a1, a2 = info.get_argument_info(argname), info.get_argument_info(idx)
+            argnode = node.nodeargd.argnlist[idx]
+            if argnode is None or not hasattr(argnode, 'delimiters') or \
+                    argnode.delimiters[0] != opener:
+                res.label('argview:argument-is-not-the-group')
+                continue
+            inner_text = doc[argnode.pos + 1:argnode.pos_end - 1]
+            kids = [n for n in argnode.nodelist]
+            want = inner_text
+            unwrapped = False
+            if len(kids) == 1 and kids[0] is not None and hasattr(kids[0], 'delimiters') and \
+                    kids[0].delimiters and kids[0].delimiters[0] != opener:
+                want = doc[kids[0].pos + 1:kids[0].pos_end - 1]
+                unwrapped = True
+            for label, a in (('by-name', a1), ('by-index', a2)):
+                if not a.was_provided():
+                    res.fail('c18:argview:was_provided', '%r %s' % (doc, label), case)
+                got = a.get_content_nodelist()
+                text = ''.join(n.latex_verbatim() for n in got if n is not None)
+                if text != want:
+                    res.fail('c18:argview:content-nodelist:%s' % ('different-delimiters' if unwrapped
+                                                                   else 'same-or-no-inner-group'),
+                             '%r: get_content_nodelist() (%s) gives %r, documented contents %r'
+                             % (doc, label, text, want), case)
+                    break
+                for n in got:
+                    if n is not None and doc[n.pos:n.pos_end] != n.latex_verbatim():
+                        res.fail('c18:argview:node-position', '%r: node %r at %r..%r' %
+                                 (doc, n.latex_verbatim(), n.pos, n.pos_end), case)
+                raw = a.get_content_nodelist(unwrap_double_group=False)
+                rtext = ''.join(n.latex_verbatim() for n in raw if n is not None)
+                if rtext != inner_text:
+                    res.fail('c18:argview:content-nodelist:no-unwrap', '%r: %r vs %r'
+                             % (doc, rtext, inner_text), case)
+            h = sum(len(t) * (i + 1) for i, t in enumerate(tokens))
+            for j in range(3):
+                opt = KV_OPTS[(h + j * 5) % len(KV_OPTS)]
+                if opt.get('seps') or opt.get('extract') is False or opt.get('default'):
+                    continue
+                kw = {'repeated_key_action': opt['action']} if 'action' in opt else {}
+                outs = []
+                for fn in (lambda: a1.parse_content_as_keyval(**kw),
+                           lambda: a1.get_content_nodelist().parse_keyval_content(**kw)):
+                    try:
+                        outs.append(('ok', _kv_plain(fn())))
+                    except Exception as e:
+                        outs.append(('raised',))
+                if outs[0] != outs[1]:
+                    res.fail('c18:argview:keyval-shorthand-differs', '%r %r: %r vs %r'
+                             % (doc, kw, outs[0], outs[1]), case)
+            res.label('argview:unwrapped' if unwrapped else 'argview:plain', case)
+            if any(hasattr(k, 'delimiters') for k in kids if k is not None) and \
+                    any(t in (',', '=') for t in tokens):
+                res.nontriv_distinct()
+                res.label('argview:group-with-separators')
+        except Exception as e:
+            res.fail(exc_key(e), exc_detail(e) + ' on %r' % doc, case)
+    # absent optional argument, single-token argument
+    res.case()
+    try:
+        w = LatexWalker('\\zzo a', latex_context=arg_db(), tolerant_parsing=False)
+        nl, _ = w.parse_content(_GNP())
+        info = ParsedArgumentsInfo(node=nl[0])
+        o, v = info.get_argument_info('opt'), info.get_argument_info('val')
+        ol, vl = list(o.get_content_nodelist()), list(v.get_content_nodelist())
+        if o.was_provided() or ol != [None]:
+            res.fail('c18:argview:absent-optional', 'was_provided=%r list=%r'
+                     % (o.was_provided(), ol), {'what': 'argview', 'tokens': []})
+        if len(vl) != 1 or vl[0].latex_verbatim() != 'a':
+            res.fail('c18:argview:single-token-argument', repr(vl), {'what': 'argview', 'tokens': []})
+    except Exception as e:
+        res.fail(exc_key(e), exc_detail(e), {'what': 'argview', 'tokens': []})
+
+
 def classify(tokens, what):
     """non-trivial rule"""
     seps = [t for t in tokens if t in (',', '=', ';', ':', '\\\\', '&')]
@@ -482,6 +618,7 @@ def plan(tier, seed):
     shards += [('node', LN, k) for k in range(NSHARDS)]
     shards += [('kv', LK, k) for k in range(NSHARDS)]
     shards += [('chars2', L, k) for k in range(NSHARDS)]
+    shards += [('argview', L, k) for k in range(NSHARDS)]
     shards += [('rand', nrand // NSHARDS, seed * 1000 + k) for k in range(NSHARDS)]
     return {'shards': shards,
             'bounds': {'tokens_chars': L, 'tokens_node': LN, 'tokens_keyval': LK,
@@ -490,7 +627,8 @@ def plan(tier, seed):
                                        'keyval': len(KV_OPTS)}},
             'required_classes': ['chars:non-trivial', 'node:non-trivial', 'kv:non-trivial',
                                  'keyval:repeated-key:first', 'keyval:repeated-key:concatenate',
-                                 'with-none-entries',
+                                 'with-none-entries', 'argview:unwrapped', 'argview:plain',
+                                 'argview:group-with-separators',
                                  'separator-inside-math-or-environment']}
 
 
@@ -524,6 +662,11 @@ def run_shard(shard, res):
         hyp_run(strat, one, n, seed)
         return
     _, L, k = shard
+    if what == 'argview':
+        for toks in enum(ALPHA_ARG, L, k):
+            check_argument_views(toks, res)
+        res.exhaustive = True
+        return
     alpha, opts = {'chars': (ALPHA, CHARS_OPTS), 'node': (ALPHA_NODE, NODE_OPTS),
                    'kv': (ALPHA_KV, KV_OPTS), 'chars2': (ALPHA2, CHARS_OPTS)}[what]
     if what == 'chars2':
@@ -565,12 +708,15 @@ def run_shard(shard, res):
 
 
 def check_case(case, res):
+    if case['what'] == 'argview':
+        check_argument_views(case['tokens'], res)
+        return
     run_case(case, res)
 
 
 def minimise(case, key):
     def pred(t):
         r = Result()
-        run_case(dict(case, tokens=list(t)), r)
+        check_case(dict(case, tokens=list(t)), r)
         return key in r.failures
     return dict(case, tokens=ddmin(case['tokens'], pred))
